@@ -31,6 +31,10 @@ func init() {
 }
 
 func runC05(c *an.Ctx) {
+	dnssvcWiring(c, "C05-R9", func(dst, src string) bool {
+		n := normName(dst) + " " + normName(src)
+		return strings.Contains(n, "geoip") || strings.Contains(n, "ecscount")
+	}, 2)
 	// ---- C05-R9: builder wiring of the components this property rests on
 	c.Floor("C05-R9", 5)
 	builderWiring(c, "C05-R9", map[string][]string{
